@@ -1,5 +1,5 @@
 (* The third defect class of fun2core: a call whose target is `main` (FORMER finding call-to-main, repaired in /repo
-   by <commitmain>: when main is called somewhere, it is translated like any other definition and the program
+   by f929eb7: when main is called somewhere, it is translated like any other definition and the program
    starts at a fresh label that calls it with the exit continuation).  REGRESSION statements about the translation
    before the fix ([compile_prog_before_fix]): compile_main gave the Core definition `main` no return-continuation
    parameter, a call site passed one; the witness is corpus/fun/call_main_nontail.sc as the type checker annotates
